@@ -41,7 +41,10 @@ func (o *Obligation) smt(withModel bool) string { return o.smtV(withModel, !noSk
 
 // smtV: the query, with the goal's universal quantifiers skolemised or left to the solver.
 // Neither form is uniformly better for z3's trigger matching, so the portfolio races both.
-func (o *Obligation) smtV(withModel, skolem bool) string {
+func (o *Obligation) smtV(withModel, skolem bool) string { return o.smtP(withModel, skolem, false) }
+
+// smtP: additionally with the heap frame axioms outside the goal's cone removed (prune.go).
+func (o *Obligation) smtP(withModel, skolem, prune bool) string {
 	if o.Raw != "" {
 		return o.Raw
 	}
@@ -61,7 +64,21 @@ func (o *Obligation) smtV(withModel, skolem bool) string {
 		b.WriteString(c.P.specText[f])
 		b.WriteByte('\n')
 	}
-	for _, l := range c.out[:o.Prefix] {
+	goal := o.Goal
+	var skd []string
+	if skolem {
+		if o.skGoal == "" {
+			o.skGoal, o.skDecls = skolemizeGoal(o.Goal)
+		}
+		goal = o.skGoal
+		skd = o.skDecls
+	}
+	lines := c.out[:o.Prefix]
+	if prune {
+		tail := o.Guard + " " + goal + " " + strings.Join(o.Extra, " ")
+		lines, _ = pruneHeapAxioms(lines, tail)
+	}
+	for _, l := range lines {
 		b.WriteString(l)
 		b.WriteByte('\n')
 	}
@@ -70,16 +87,9 @@ func (o *Obligation) smtV(withModel, skolem bool) string {
 		b.WriteByte('\n')
 	}
 	fmt.Fprintf(&b, "; goal %s\n", o.Name)
-	goal := o.Goal
-	if skolem {
-		if o.skGoal == "" {
-			o.skGoal, o.skDecls = skolemizeGoal(o.Goal)
-		}
-		goal = o.skGoal
-		for _, d := range o.skDecls {
-			b.WriteString(d)
-			b.WriteByte('\n')
-		}
+	for _, d := range skd {
+		b.WriteString(d)
+		b.WriteByte('\n')
 	}
 	fmt.Fprintf(&b, "(assert %s)\n(assert (not %s))\n(check-sat)\n", o.Guard, goal)
 	if withModel {
